@@ -3,6 +3,7 @@
 # applies a change in a scratch worktree of /repo (never /repo itself), runs the check there, removes the worktree
 set -u
 PID=$1; CH=$2; TIER=${3:-quick}
+HERE="$(cd "$(dirname "$0")/.." && pwd)"
 WT=/tmp/pav_wt_$$
 git -C /repo worktree add --detach -q $WT HEAD || exit 3
 # carry over uncommitted changes? no: /repo is kept clean
@@ -13,9 +14,9 @@ else
   git -C $WT apply "$CH" || { echo "patch failed"; git -C /repo worktree remove --force $WT; exit 3; }
 fi
 git -C $WT diff --stat | tail -1
-VERIF_REPO=$WT /verif/vcheck $PID --tier $TIER 2>/dev/null | tail -3
-RC=$?
+VERIF_REPO=$WT $HERE/vcheck $PID --tier $TIER 2>/dev/null | tail -3
+RC=${PIPESTATUS[0]}
 git -C /repo worktree remove --force $WT
 # restore generated files from the real repo
-python3 /verif/py2v/py2v.py --repo /repo layout >/dev/null 2>&1
+python3 $HERE/py2v/py2v.py --repo /repo layout >/dev/null 2>&1
 exit $RC
